@@ -1,4 +1,6 @@
 import IwModel.Lemmas.Vnum
+import IwModel.Lemmas.Conv
+import IwModel.Lemmas.Cmp
 /-! # C19 — number codecs round-trip and key comparators are total orders
 
 Property theorems only; helper lemmas live in `IwModel/Lemmas`. -/
@@ -44,5 +46,29 @@ theorem vnum_size (n : Nat) (h : n < 2 ^ 64) :
 /-- non-vacuity: a three-byte value -/
 example : Vnum.dec (Vnum.enc 20000 ++ [7]) = some (20000, (Vnum.enc 20000).length) ∧ Vnum.size 20000 = 3 :=
   ⟨vnum_dec_enc 20000 [7], by decide⟩
+
+/-! ## decimal text -/
+
+/-- Reading back (with `iwatoi`, computed in ℤ) the decimal text of any integer yields that integer.
+    Holds for every `v : Int`, in particular on all 64-bit values. -/
+theorem atoi_itoaSpec (v : Int) : Conv.atoi (Conv.itoaSpec v) = v := by
+  unfold Conv.itoaSpec
+  split
+  · rw [Conv.atoi_neg_digits]; omega
+  · rw [Conv.atoi_digits]; omega
+
+/-- On the `int64_t` range the two's-complement wrap-around of `iwatoi`'s accumulator is the identity,
+    so the ℤ-valued `Conv.atoi` is what the C function returns there. -/
+theorem wrap64_id (v : Int) (lo : -2 ^ 63 ≤ v) (hi : v < 2 ^ 63) : Conv.wrap64 v = v := by
+  unfold Conv.wrap64; omega
+
+/-- text → integer ∘ integer → text is the identity on all 64-bit values, including the wrap. -/
+theorem atoi_itoaSpec_wrap (v : Int) (lo : -2 ^ 63 ≤ v) (hi : v < 2 ^ 63) :
+    Conv.wrap64 (Conv.atoi (Conv.itoaSpec v)) = v := by
+  rw [atoi_itoaSpec, wrap64_id v lo hi]
+
+/-- non-vacuity: INT64_MIN is in range and reads back -/
+example : Conv.wrap64 (Conv.atoi (Conv.itoaSpec (-2 ^ 63))) = -2 ^ 63 :=
+  atoi_itoaSpec_wrap _ (by decide) (by decide)
 
 end IwModel.C19
